@@ -1152,4 +1152,20 @@ def run(ctx):
                                   f"ok {spend.id[::-1].hex()} {tx.id[::-1].hex()} "
                                   + engine_verdict(spend.vout, tx, 0, mask).split(" ")[0]))
             ctx.correspond("c10.bip322.model", EXE, cases, nontrivial=lambda ln, out: True)
+    # ---- the MODEL of MultiA._script / MultiA._stack (Model/C10/MultiA.lean): script bytes and the satisfaction layout
+    from btclib.script.script import serialize as _ser
+    cases = []
+    for _ in range(ctx.n(40, 400)):
+        n = rng.choice([1, 2, 3, 3, 5, 8, 17, 20])
+        k = rng.randint(1, n) if rng.random() < 0.8 else rng.randint(1, min(n, 16))
+        ks = [pub_keyinfo_from_prv_key(rng.randrange(1, N_SECP))[0] for _ in range(n)]
+        leaf = parse(add_checksum(f"tr({NUMS},multi_a({k},{','.join(x.hex() for x in ks)}))")).tree
+        script = bytes(_ser(leaf._script(0, "mainnet", None)))
+        signers = [i for i in range(n) if rng.random() < rng.choice([0.3, 0.7, 1.0])]
+        sigs = {ks[i][1:]: common.rand_bytes(rng, rng.choice([64, 65])) for i in signers}
+        st = leaf._stack(sigs, 0, "mainnet", None)
+        offered = ",".join(hx(sigs[x[1:]]) if x[1:] in sigs else "." for x in ks)
+        cases.append((f"multia {k} {','.join(x[1:].hex() for x in ks)} {offered}",
+                      f"ok {script.hex()} " + ("none" if st is None else wit_tok(st))))
+    ctx.correspond("c10.multia.model", EXE, cases, nontrivial=lambda ln, out: not out.endswith(" none"))
     ctx.note(f"harness time {time.time() - t_start:.1f}s")
